@@ -61,13 +61,20 @@ class C07(_AppSpec):
     def shards(self, tier):
         out = [self.job("c07order", {"kernel": "order"}, budget=300.0)]
         sels = ["default", "all"]
+        multi = [sk for sk in docs.load_pool("core") if sk.count("\n") >= 2 and ("`\n" in sk or "(\n" in sk or "a\nb" in sk)]
         if tier == "quick":
             base = docs.g1_shards(1) + docs.g2_shards(docs.load_pool("mini"), replace=True)
             for sel in sels:
                 for s in base:
                     out.append(self.job("c07", dict(s, selection=sel)))
+            for s in docs.g3_shards() + [{"skeleton": sk, "holes": []} for sk in multi] + docs.g2_shards(multi, replace=True)[::4]:
+                out.append(self.job("c07", dict(s, selection="all"), budget=200.0))
         else:
             from checks.app_real import all_rule_ids
+
+            for s in docs.g3_shards() + docs.g2_shards(multi, replace=True):
+                for sel in sels:
+                    out.append(self.job("c07", dict(s, selection=sel), budget=400.0))
 
             base = docs.g1_shards(2) + docs.g2_shards(docs.load_pool("core"), replace=True)
             for sel in sels:
@@ -118,7 +125,11 @@ class C09(_AppSpec):
             for rid in rules:
                 for s in docs.g1_shards(1):
                     out.append(self.job("c09", dict(s, selection="only:" + rid)))
+            for s in docs.g3_shards():
+                out.append(self.job("c09", dict(s, selection="default"), budget=300.0))
         else:
+            for s in docs.g3_shards():
+                out.append(self.job("c09", dict(s, selection="default"), budget=600.0))
             base = docs.g1_shards(2) + docs.g2_shards(docs.load_pool("core"), replace=True)
             for s in base:
                 out.append(self.job("c09", dict(s, selection="default")))
@@ -154,6 +165,8 @@ class C10(_AppSpec):
                 out.append(self.job("c10", dict(s, selection="default")))
             for s in docs.g1_shards(1) + docs.g2_shards(docs.load_pool("mini")[:2], replace=True):
                 out.append(self.job("c10", dict(s, selection="default", scheme="minimal")))
+            for s in docs.g3_shards(["heading-levels", "blank-lines-and-trailing-spaces", "list-indents"]):
+                out.append(self.job("c10", dict(s, selection="default"), budget=300.0))
         else:
             base = docs.g1_shards(2) + docs.g2_shards(docs.load_pool("core"), replace=True)
             for scheme in ("default", "minimal"):
@@ -183,6 +196,8 @@ class C12(_AppSpec):
     def shards(self, tier):
         if tier == "quick":
             base = docs.g1_shards(1) + _strided(docs.g2_shards(docs.load_pool("mini"), replace=True), 8)
+            base += _strided(docs.g2_shards(["<!-- pyml disable-next-line md009-->\na\tb   \n"], replace=True), 13)
+            base += docs.g3_shards(["hashes-and-spaces"])
             return [self.job("c12", s, budget=300.0) for s in base]
         base = docs.g1_shards(1) + docs.g2_shards(docs.load_pool("core"), replace=True)
         return [self.job("c12", dict(s, minus=True), budget=900.0) for s in base]
@@ -264,7 +279,16 @@ _C13_FIRST = [
     "*a* __b__ <div>\n\n    code\n",
     "> q\n> - l\n\n\n\n* * *\n",
 ]
-_C13_SECOND = ["[a]\n", "## b\n", "1. x\n", "x", "- a\n+ b\n", "# a\n", "***\n___\n"]
+_C13_FIRST += [
+    "# Title\n\nSome ordinary text.",
+    "- a\n- b",
+    "> q",
+    "a\n***",
+    "| x |\n\n<div>\nhtml",
+]
+_C13_SECOND = ["[a]\n", "## b\n", "1. x\n", "x", "- a\n+ b\n", "# a\n", "***\n___\n",
+               # documents that open with each kind of block on their first line
+               "```text\ncode\n```\n\nMore text.\n", "    code\n", "> q\n", "<div>\n", "[b]: /v\n\n[b]\n", "\n\nx\n", "+ a\n", "### h\n", "a\n===\n"]
 
 
 class C13(_AppSpec):
@@ -286,14 +310,17 @@ class C13(_AppSpec):
         def holes(sk, stride):
             return list(range(0, len(sk), stride))
 
+        # every ordered pair (first, second) of the pools: the second document is selected by a z3 Int
+        for first in _C13_FIRST:
+            for mode in ("scan", "fix"):
+                out.append(self.job("c13", {"sk1": first, "holes1": [], "sk2": "", "holes2": [], "seconds": _C13_SECOND, "mode": mode}, budget=300.0))
         if tier == "quick":
-            for i, first in enumerate(_C13_FIRST):
-                second = _C13_SECOND[i % len(_C13_SECOND)]
+            for i, first in enumerate(_C13_FIRST[:7]):
+                second = _C13_SECOND[i % 7]
                 for mode in ("scan", "fix"):
-                    for h in holes(second, 2):
+                    for h in holes(second, 3):
                         out.append(self.job("c13", {"sk1": first, "holes1": [], "sk2": second, "holes2": [h], "mode": mode}, budget=120.0))
                 out.append(self.job("c13", {"sk1": first, "holes1": [], "sk2": "?", "holes2": [0], "mode": "scan", "api": True}))
-                out.append(self.job("c13", {"sk1": first, "holes1": [], "sk2": "?", "holes2": [0], "mode": "fix"}))
             # symbolic cell in the first document, concrete second
             for h in (1, 5):
                 out.append(self.job("c13", {"sk1": "[a]: /u\n\n# h\n", "holes1": [h], "sk2": "[a]\n", "holes2": [], "mode": "scan"}, budget=150.0))
@@ -470,6 +497,8 @@ class C08(_AppSpec):
             for i, s in enumerate(docs.g2_shards(_C08_POOL[:4], replace=True)):
                 if i % 3 == 0:
                     out.append(self.job("c08", dict(s, selection="default"), budget=300.0))
+            for s in docs.g3_shards(["heading-levels", "list-indents", "hashes-and-spaces", "fence-lengths"]):
+                out.append(self.job("c08", dict(s, selection="default"), budget=400.0))
         else:
             for s in docs.g1_shards(2) + docs.g2_shards(_C08_POOL + docs.load_pool("mini"), replace=True):
                 out.append(self.job("c08", dict(s, selection="default"), budget=600.0))
